@@ -94,6 +94,13 @@ def Bandit.trainShapeErr (b : Bandit α) (batch : Batch α) (isPartial : Bool) :
       if isPartial ∧ batch.length ≠ 0 ∧ b.hist.length ≠ 0 ∧ w ≠ b.storedWidth then some .shape
       else if (if isPartial then b.hist.length + batch.length else batch.length) < n then some .shape
       else none
+    | .none =>
+      -- `_RidgeRegression.fit`: `A + XᵀX` with incompatible shapes raises for the first arm that has rows
+      -- (widths 1 broadcast silently; generators avoid them)
+      match b.lp.kind.isLinear, isPartial, b.lp.numFeatures, w with
+      | true, true, some d, some d' =>
+        if d ≠ d' ∧ d ≠ 1 ∧ d' ≠ 1 ∧ batch.any (fun r => r.arm ∈ b.arms) then some .shape else none
+      | _, _, _, _ => none
     | _ => none
 
 structure StepOut (α : Type) where
@@ -105,17 +112,13 @@ def Bandit.train (b : Bandit α) (a : TrainArgs α) (isPartial : Bool) (o : Orac
   match b.validateTrain a with
   | some e => (b, { err := some e }, g)
   | none =>
-    let batch := a.toBatch
-    let partialNow := isPartial && b.isFit
-    match b.trainShapeErr batch partialNow with
+    match b.trainShapeErr a.toBatch (isPartial && b.isFit) with
     | some e => (b, { err := some e }, g)
     | none =>
-      if partialNow then
-        let (b', g) := b.impPartialFit batch o g
-        (b', {}, g)
+      if isPartial && b.isFit then
+        ((b.impPartialFit a.toBatch o g).1, {}, (b.impPartialFit a.toBatch o g).2)
       else
-        let (b', g) := b.impFit batch o g
-        ({ b' with isFit := true }, {}, g)
+        ({ (b.impFit a.toBatch o g).1 with isFit := true }, {}, (b.impFit a.toBatch o g).2)
 
 def Bandit.query (le : Expect → Expect → Bool) (b : Bandit α) (a : PredArgs) (isPredict : Bool)
     (o : Oracle) (g : Rng) : Bandit α × StepOut α × Rng :=
@@ -123,8 +126,9 @@ def Bandit.query (le : Expect → Expect → Bool) (b : Bandit α) (a : PredArgs
   else if b.isContextual ∧ a.contexts.isNone then (b, { err := some .value }, g)
   else if a.contexts.isSome ∧ !a.ctxTypeOk then (b, { err := some .type }, g)
   else
-    let (b', out, g) := b.impPredict le isPredict (a.contexts.map (·.length)) (a.contexts.getD []) o g
-    (b', { out }, g)
+    ((b.impPredict le isPredict (a.contexts.map (·.length)) (a.contexts.getD []) o g).1,
+     { out := (b.impPredict le isPredict (a.contexts.map (·.length)) (a.contexts.getD []) o g).2.1 },
+     (b.impPredict le isPredict (a.contexts.map (·.length)) (a.contexts.getD []) o g).2.2)
 
 def Bandit.step (le : Expect → Expect → Bool) (b : Bandit α) (op : Op α) (o : Oracle) (g : Rng) :
     Bandit α × StepOut α × Rng :=
